@@ -9,7 +9,8 @@ PROPERTY_ID = "C19"
 RULE = ("channel_grid: every ordered pair of ChannelIdentifier over qubit ids -2..6 x {READOUT,MICROWAVE,FLUX,ALL} "
         "(1296 pairs, exhaustive); channel_triples / edges / qubit_ids / unique: Hypothesis-generated triples of channel "
         "identifiers (ids -50..50), pairs of edge and qubit identifiers over a 5-letter name alphabet (forces "
-        "collisions) incl. foreign-type operands, and sequences of hashable elements (ints, strings, tuples, qubit and "
+        "collisions) plus near-miss spellings of every name (other letter case, surrounding blank, zero padding, full-width "
+        "digits, proper prefix / extension, trailing NUL, casefold-equal letters) incl. foreign-type operands, and sequences of hashable elements (ints, strings, tuples, qubit and "
         "edge ids). Non-trivial = the pair shares a qubit / the edges share >= 1 qubit name / the sequence contains a "
         "duplicate; distinct = distinct canonical JSON of the generated case.")
 ASSUMPTIONS = [
@@ -90,12 +91,53 @@ def body_channel_triple(case, ctx):
 
 
 NAMES = ["D1", "D2", "X1", "Z1", "D10"]
+# near-miss spellings: names that a "tolerant" comparison (case folding, stripping, unicode normalisation, numeric
+# parsing, prefix matching) would wrongly identify although they are different names
+VARIANTS = ["lower", "upper", "swapcase", "trail_space", "lead_space", "zero_pad", "fullwidth", "prefix", "suffix", "nul"]
+
+
+def variant(name: str, how: str) -> str:
+    if how == "lower":
+        return name.lower()
+    if how == "upper":
+        return name.upper()
+    if how == "swapcase":
+        return name.swapcase()
+    if how == "trail_space":
+        return name + " "
+    if how == "lead_space":
+        return " " + name
+    if how == "zero_pad":
+        return name[:1] + "0" + name[1:]
+    if how == "fullwidth":
+        return "".join(chr(ord(ch) + 0xFEE0) if ch.isdigit() else ch for ch in name)
+    if how == "prefix":
+        return name[:-1]
+    if how == "suffix":
+        return name + "0"
+    return name + "\x00"
+
+
+def name_strategy():
+    from hypothesis import strategies as st
+    base = st.sampled_from(NAMES) | st.sampled_from(["d1", "x1", "Ss1", "\u00df1"])
+    return base | st.tuples(base, st.sampled_from(VARIANTS)).map(lambda t: variant(*t))
 
 
 def strat_edges():
     from hypothesis import strategies as st
     name = st.sampled_from(NAMES)
-    return st.fixed_dictionaries({"e": st.tuples(name, name).map(list), "f": st.tuples(name, name).map(list)})
+    plain = st.fixed_dictionaries({"e": st.tuples(name, name).map(list), "f": st.tuples(name, name).map(list)})
+
+    @st.composite
+    def near(draw):
+        # f is e (either order) with near-miss spellings of its names
+        e = [draw(name_strategy()), draw(name_strategy())]
+        f = [variant(n, draw(st.sampled_from(VARIANTS))) if draw(st.booleans()) else n for n in e]
+        if draw(st.booleans()):
+            f.reverse()
+        return {"e": e, "f": f}
+    return plain | near()
 
 
 def body_edges(case, ctx):
@@ -113,7 +155,8 @@ def body_edges(case, ctx):
         hef = hash(E) == hash(F)
         in_set = F in {E}
         in_list = F in [E]
-        contains = [E.contains(QubitIDObj(n)) for n in NAMES]
+        probe = NAMES + [n for n in f if n not in NAMES]
+        contains = [E.contains(QubitIDObj(n)) for n in probe]
         foreign = (E == (e[0], e[1])) or (E == QubitIDObj(e[0])) or (E == f"{e[0]}-{e[1]}")
     if not r_eq:
         ctx.fail("edge-order-eq", f"Edge{e} != its reversal")
@@ -121,7 +164,7 @@ def body_edges(case, ctx):
         ctx.fail("edge-order-hash", f"hash(Edge{e}) differs from hash of its reversal")
     if foreign:
         ctx.fail("edge-foreign", f"Edge{e} equal to a non-edge object")
-    if contains != [n in e for n in NAMES]:
+    if contains != [n in e for n in probe]:
         ctx.fail("edge-contains", f"Edge{e}.contains gives {contains}")
     if nondeg:
         exp = set(e) == set(f)
@@ -140,13 +183,15 @@ def body_edges(case, ctx):
 def strat_qubits():
     from hypothesis import strategies as st
     name = st.sampled_from(NAMES) | st.text(alphabet="DXZ0123", min_size=0, max_size=3)
-    return st.tuples(name, name).map(list)
+    near = st.tuples(name_strategy(), st.sampled_from(VARIANTS)).map(lambda t: [t[0], variant(*t)])
+    return st.tuples(name, name).map(list) | near | near.map(lambda p: p[::-1])
 
 
 def body_qubits(case, ctx):
     from qce_circuit.connectivity.intrf_channel_identifier import QubitIDObj, FeedlineIDObj
     a, b = case
-    ctx.case(case, nontrivial=(a == b) or (a[:1] == b[:1]), classes=[f"equal={a == b}"])
+    close = a != b and (a.casefold().strip() == b.casefold().strip() or a.startswith(b) or b.startswith(a))
+    ctx.case(case, nontrivial=(a == b) or (a[:1] == b[:1]) or close, classes=[f"equal={a == b}", f"near_miss={close}"])
     with ctx.lib("QubitIDObj"):
         A, B = QubitIDObj(a), QubitIDObj(b)
         eq, qe = A == B, B == A
@@ -170,7 +215,7 @@ def body_qubits(case, ctx):
 def strat_unique():
     from hypothesis import strategies as st
     atom = (st.integers(-3, 5) | st.sampled_from(["a", "b", "", "ab"]) | st.tuples(st.integers(0, 2), st.integers(0, 2)).map(list)
-            | st.sampled_from(NAMES).map(lambda n: {"qubit": n})
+            | st.sampled_from(NAMES).map(lambda n: {"qubit": n}) | name_strategy().map(lambda n: {"qubit": n})
             | st.tuples(st.sampled_from(NAMES[:3]), st.sampled_from(NAMES[:3])).filter(lambda t: t[0] != t[1]).map(lambda t: {"edge": list(t)}))
     return st.lists(atom, max_size=14)
 
